@@ -14,6 +14,7 @@ EIO/ENOENT at the k-th schema read, which lands inside lazy $ref loading in the
 middle of in-place pruning; afterwards the invariants must hold again at the
 first fault-free attempt.
 """
+import math
 import os
 import sys
 
@@ -98,7 +99,7 @@ class C09(core.Check):
     def extra_phases(self, tier, seed, report):
         rels = 6
         report["extra"]["alphabet_items"] = len(self.alpha)
-        report["extra"]["alphabet_item_x_version_relations"] = sum(1 + 5 * len(a["bounds"]) for a in self.alpha)
+        report["extra"]["alphabet_item_x_version_relations"] = sum(1 + 9 * len(a["bounds"]) for a in self.alpha)
         report["extra"]["annotated_entries"] = len(self.model.entries)
         report["extra"]["entries_without_synthesised_document"] = self.unsynth
 
@@ -109,7 +110,10 @@ class C09(core.Check):
         out = [[None, "none"]]
         for b in item["bounds"]:
             out += [[round(b - 0.1, 2), "below"], [round(b - 0.01, 2), "just-below"], [b, "at"],
-                    [round(b + 0.01, 2), "just-above"], [round(b + 0.1, 2), "above"]]
+                    [round(b + 0.01, 2), "just-above"], [round(b + 0.1, 2), "above"],
+                    # the neighbouring floats (what nextafter, an accumulated 0.1 step or a parsed "7.6000000001" gives)
+                    [math.nextafter(b, math.inf), "ulp-above"], [math.nextafter(b, -math.inf), "ulp-below"],
+                    [b * (1 + 4e-10), "1e-10-above"], [b * (1 - 4e-10), "1e-10-below"]]
         return out
 
     def generate_idx(self, seed, tier, idx):
